@@ -487,8 +487,8 @@ func TestC20Transforming(t *testing.T) {
 // ---------------------------------------------------------------- Blank
 
 type BlankOp struct {
-	K     string `json:"k"`               // set | done | inner-report | other-report
-	Kind  string `json:"kind,omitempty"`  // set: static | watching | value-error | watch-error | nil
+	K     string `json:"k"`              // set | done | inner-report | other-report
+	Kind  string `json:"kind,omitempty"` // set: static | watching | value-error | watch-error | nil
 	L     WLayer `json:"l"`
 	Valid bool   `json:"-"`
 }
@@ -566,7 +566,7 @@ func runC20Blank(c C20BlankCase) (verdict vrt.Verdict) {
 		_ = typ
 		// model
 		var otherL, blankL WLayer
-		var innerStatic *WLayer      // most recently set non-watching inner
+		var innerStatic *WLayer        // most recently set non-watching inner
 		var innerWatcher *fake.Watcher // once set, owns the slot
 		blankDone, otherDone := false, false
 		monAlive := true
